@@ -1,6 +1,7 @@
 # -*- coding: utf-8 -*-
 
 from concurrent.futures import Future
+from threading import Lock
 
 from ..executors import Executors
 from ..common import copy_exception
@@ -74,6 +75,28 @@ def f_return_cancelled():
     f.cancel()
     f.set_running_or_notify_cancel()
     return f
+
+
+class OutputFuture(Future):
+    # A future which is resolved by callbacks rather than by an executor.
+    #
+    # With a plain Future, cancel() only marks the future as cancelled; it is the
+    # executor picking up the work which later calls set_running_or_notify_cancel
+    # to release callers blocked in concurrent.futures.wait()/as_completed().
+    # No executor does that for this future, so cancel() does it (exactly once).
+    def __init__(self):
+        super(OutputFuture, self).__init__()
+        self.__notify_lock = Lock()
+        self.__notified = False
+
+    def cancel(self):
+        if not super(OutputFuture, self).cancel():
+            return False
+        with self.__notify_lock:
+            if not self.__notified:
+                self.__notified = True
+                self.set_running_or_notify_cancel()
+        return True
 
 
 class WeakCallback(object):
